@@ -149,7 +149,14 @@ func (dp *deniableProver) proofStep() (bool, error) {
 	for i := range dp.dv {
 		dv := dp.dv[i]
 		if dv != nil && i < len(msgs) {
-			dv.inbox <- msgs[i][keySize:] // send to verifier
+			// a participant that dropped out (or whose message was cut
+			// short) has no proof data: its verifier gets an empty message
+			// and fails, instead of us slicing out of bounds
+			var prf []byte
+			if len(msgs[i]) >= keySize {
+				prf = msgs[i][keySize:]
+			}
+			dv.inbox <- prf // send to verifier
 		}
 	}
 
@@ -185,11 +192,11 @@ func (dp *deniableProver) challengeStep() error {
 	// (even if all others turn out to be maliciously generated).
 	mix := make([]byte, keySize)
 	for i := range keys {
-		com := dp.msgs[i][:keySize] // node i's randomness commitment
-		key := keys[i]              // node i's committed random key
-		if len(com) < keySize || len(key) < keySize {
+		if i >= len(dp.msgs) || len(dp.msgs[i]) < keySize || len(keys[i]) < keySize {
 			continue // ignore participants who dropped out
 		}
+		com := dp.msgs[i][:keySize] // node i's randomness commitment
+		key := keys[i]              // node i's committed random key
 		chk := make([]byte, keySize)
 		_, err := dp.suite.XOF(key).Read(chk)
 		if err != nil {
